@@ -6,6 +6,152 @@ From HP Require Import Base.Bytes Base.Utf8 Base.Num Model.Scanner Model.Parser 
      Proofs.PrintBytes Proofs.PrintUtf8 Proofs.PrintDates Proofs.PrintLines Proofs.PrintParse Proofs.PrintNormal.
 Open Scope N_scope.
 
+(** the configuration with another date layout *)
+Definition with_date (c : rconfig) (toks : list ltoken) : rconfig :=
+  {| rc_color := rc_color c; rc_totals_only := rc_totals_only c; rc_totals := rc_totals c; rc_date := toks;
+     rc_single_element := rc_single_element c; rc_single_food := rc_single_food c;
+     rc_collapse_last := rc_collapse_last c; rc_collapse := rc_collapse c; rc_group_food := rc_group_food c;
+     rc_shorten := rc_shorten c; rc_old := rc_old c; rc_template := rc_template c; rc_csv := rc_csv c |}.
+
+(** *** layouts that end with spaces.  [format_date] writes the spaces, the parser's trimming removes
+    them from the heading, and [parse_date] reads the trimmed heading (a space of the layout matches the
+    empty run at the end of the value).  The printed log is therefore parsed as the log printed under
+    the layout without its final spaces ([layout_core]), which is a heading layout. *)
+Section PrintCore.
+  Context (NM : Num).
+  Notation lognode := (lognode NM).
+
+  Definition day_tail (d : lognode) : list bytes :=
+    map note_line (notes_of NM d) ++ map (entry_line NM) (ln_elems NM d) ++ [[]].
+
+  Lemma day_lines_heading c d : day_lines NM c d = heading_line NM c d :: day_tail d.
+  Proof. reflexivity. Qed.
+
+  (** the heading line with filler from the trim set before the colon *)
+  Lemma classify_heading_filler ln fd post r :
+    heading_bytes_ok fd -> all_in trim_text post = true ->
+    classify NM ln (fd ++ post ++ [c_colon]) r = LHeading NM fd.
+  Proof.
+    intros [_ [Hf Hl]] Hpost.
+    assert (Hf' : first_outside trim_text fd = true).
+    { eapply first_outside_sub; [|exact Hf]. intros c Hc. rewrite !memb_cons. rewrite Hc. rewrite !orb_true_r. reflexivity. }
+    assert (Hl' : last_outside trim_text fd = true).
+    { eapply last_outside_sub; [|exact Hl]. intros c Hc. rewrite memb_cons. rewrite Hc. apply orb_true_r. }
+    assert (Ht : trim trim_text (fd ++ post ++ [c_colon]) = fd).
+    { apply (trim_core trim_text [] fd (post ++ [c_colon])); [reflexivity| |exact Hf'|exact Hl'].
+      rewrite all_in_app, Hpost. reflexivity. }
+    unfold classify. rewrite Ht. destruct fd as [|c0 rest]; [discriminate|]. cbn [app].
+    cbn [first_outside] in Hf. apply negb_true_iff in Hf.
+    unfold comment_char.
+    rewrite (outside_neq _ _ c_hash Hf) by (cbn; tauto).
+    rewrite (outside_neq _ _ c_space Hf) by (cbn; tauto).
+    rewrite (outside_neq _ _ c_tab Hf) by (cbn; tauto).
+    rewrite (outside_neq _ _ c_dash Hf) by (cbn; tauto).
+    reflexivity.
+  Qed.
+
+  Section Core.
+    Context (c c' : rconfig) (Ec : rc_date c' = layout_core (rc_date c))
+            (HL' : heading_layout (rc_date c') = true) (Hsafe : forallb safe_tok (rc_date c) = true).
+
+    Lemma classify_heading_core d ln r : civil_fits (rc_date c) (civ (ln_time NM d)) ->
+      classify NM ln (heading_line NM c d) r = classify NM ln (heading_line NM c' d) r.
+    Proof.
+      intros Hfit.
+      assert (Hfit' : civil_fits (rc_date c') (civ (ln_time NM d))) by (rewrite Ec; apply civil_fits_core, Hfit).
+      pose proof (format_date_heading _ _ HL' Hfit') as Hok.
+      unfold heading_line at 2. rewrite (classify_heading NM _ (fdate c' (ln_time NM d)) _ Hok).
+      unfold heading_line, fdate in *.
+      destruct (format_date_core (rc_date c) (civ (ln_time NM d))) as [post [E Hpost]].
+      rewrite E. rewrite <- Ec. rewrite <- app_assoc.
+      apply (classify_heading_filler _ _ _ _ Hok Hpost).
+    Qed.
+
+    Lemma parse_loop_classify_ext ls ls' :
+      Forall2 (fun l l' => forall ln r, classify NM ln l r = classify NM ln l' r) ls ls' ->
+      forall ln cur, parse_loop NM ls ln cur = parse_loop NM ls' ln cur.
+    Proof.
+      induction 1 as [|l l' ls ls' Hl _ IH]; intros ln cur; [reflexivity|]. cbn [parse_loop]. rewrite Hl.
+      destruct (classify NM (ln + 1) l' _); rewrite ?IH; reflexivity.
+    Qed.
+
+    Lemma day_lines_classify_core L :
+      Forall (fun d => civil_fits (rc_date c) (civ (ln_time NM d))) L ->
+      Forall2 (fun l l' => forall ln r, classify NM ln l r = classify NM ln l' r)
+              (flat_map (day_lines NM c) L) (flat_map (day_lines NM c') L).
+    Proof.
+      induction 1 as [|d L Hd _ IH]; [constructor|]. cbn [flat_map]. apply Forall2_app; [|exact IH].
+      rewrite !day_lines_heading. constructor; [intros ln r; apply classify_heading_core, Hd|].
+      induction (day_tail d) as [|l t IHt]; constructor; [reflexivity|exact IHt].
+    Qed.
+
+    Lemma heading_line_scannable d : civil_fits (rc_date c) (civ (ln_time NM d)) ->
+      memb c_lf (heading_line NM c d) = false /\ last_outside [c_cr] (heading_line NM c d) = true.
+    Proof.
+      intros Hfit. pose proof (format_date_bytes _ _ Hsafe Hfit) as Hb. unfold heading_line. split.
+      - rewrite memb_app. unfold fdate. rewrite (heading_no_lf _ Hb). reflexivity.
+      - apply last_outside_app. reflexivity.
+    Qed.
+
+    (** the day is in the normal form under the layout without its final spaces too *)
+    Lemma day_ok_core d : day_ok NM c d -> day_ok NM c' d.
+    Proof.
+      clear HL' Hsafe. intros [H1 [H2 [H3 [H4 [H5 H6]]]]]. unfold day_ok. rewrite Ec.
+      split; [exact H1|]. split; [apply civil_fits_core, H2|]. split; [exact H3|]. split; [exact H4|].
+      split; [exact H5|]. rewrite day_lines_heading in H6 |- *. inversion H6 as [|x l Hh Ht]; subst.
+      constructor; [|exact Ht]. unfold heading_line, fdate in Hh |- *. rewrite Ec.
+      destruct (format_date_core (rc_date c) (civ (ln_time NM d))) as [post [E _]]. rewrite E in Hh.
+      rewrite !lengthN_length in Hh |- *. rewrite !app_length in Hh. rewrite !app_length. lia.
+    Qed.
+
+    Lemma lognodes_of_printed_core L :
+      Forall (day_ok NM c) L ->
+      lognodes_of NM (rc_date c) (map (fun d => ENode (reread_node NM c' d)) L) = Some (map (reread_day NM) L).
+    Proof.
+      induction 1 as [|d L Hd HL IH]; [reflexivity|].
+      destruct Hd as [Ht [Hfit [_ [Hnd _]]]].
+      cbn [map lognodes_of]. unfold reread_node at 1. cbn [header elems meta]. unfold fdate. rewrite Ec.
+      rewrite (format_parse_date_core _ _ Hfit). rewrite IH. cbn [option_map]. f_equal. f_equal.
+      unfold reread_day. rewrite <- Ht. f_equal.
+      apply merge_elements_nodup. unfold reread_elems. rewrite map_map. exact Hnd.
+    Qed.
+
+    (** given, for the layout without its final spaces, that the printed lines can be scanned and are
+        parsed to the records of the days: the log printed under the layout itself reads back *)
+    Lemma read_log_core L :
+      Forall (day_ok NM c) L ->
+      Forall (fun d => Forall (fun l => memb c_lf l = false) (day_lines NM c' d)
+                       /\ Forall (fun l => l = [] \/ last_outside [c_cr] l = true) (day_lines NM c' d)) L ->
+      events NM (print_output NM c' L) = map (fun d => ENode (reread_node NM c' d)) L ->
+      read_log NM (rc_date c) (print_output NM c L) = Some (map (reread_day NM) L).
+    Proof.
+      intros HF HS' HE'.
+      assert (Hfit : Forall (fun d => civil_fits (rc_date c) (civ (ln_time NM d))) L).
+      { eapply Forall_impl; [|exact HF]. intros d Hd. apply Hd. }
+      assert (HF' : Forall (day_ok NM c') L) by (eapply Forall_impl; [|exact HF]; apply day_ok_core).
+      assert (HS : Forall (fun d => Forall (fun l => memb c_lf l = false) (day_lines NM c d)
+                       /\ Forall (fun l => l = [] \/ last_outside [c_cr] l = true) (day_lines NM c d)) L).
+      { rewrite Forall_forall in *. intros d Hd. destruct (HS' d Hd) as [A B].
+        destruct (heading_line_scannable d (Hfit d Hd)) as [A0 B0].
+        rewrite day_lines_heading in A, B |- *. inversion A; inversion B; subst.
+        split; constructor; auto. }
+      assert (Sc : forall c0, Forall (day_ok NM c0) L ->
+                Forall (fun d => Forall (fun l => memb c_lf l = false) (day_lines NM c0 d)
+                       /\ Forall (fun l => l = [] \/ last_outside [c_cr] l = true) (day_lines NM c0 d)) L ->
+                scan (print_output NM c0 L) NoFault = (flat_map (day_lines NM c0) L, ScanEOF)).
+      { intros c0 H0 S0. rewrite print_output_unlines. apply scan_unlines.
+        - apply Forall_flat_map. eapply Forall_impl; [|exact S0]. intros d Hd. apply Hd.
+        - apply Forall_flat_map. eapply Forall_impl; [|exact H0]. intros d Hd. apply Hd.
+        - apply Forall_flat_map. eapply Forall_impl; [|exact S0]. intros d Hd. apply Hd. }
+      assert (EE : events NM (print_output NM c L) = events NM (print_output NM c' L)).
+      { unfold events. rewrite (Sc c HF HS), (Sc c' HF' HS'). cbn [fst]. unfold parse_lines.
+        rewrite (parse_loop_classify_ext _ _ (day_lines_classify_core L Hfit)). reflexivity. }
+      unfold read_log. rewrite (Sc c HF HS). cbn [snd]. rewrite EE, HE'.
+      apply lognodes_of_printed_core, HF.
+    Qed.
+  End Core.
+End PrintCore.
+
 Section PrintMain.
   Context (NM : Num) (FS : FmtStable NM).
   Notation T := (T NM).
@@ -42,6 +188,23 @@ Section PrintMain.
     - unfold read_log. rewrite (scan_print_output NM FS c L HL HP). cbn [snd]. rewrite E.
       apply lognodes_of_printed, HF.
     - apply Forall_forall. intros d _. apply Forall_forall. intros nv _. apply (reread_spec NM FS).
+  Qed.
+
+  (** the same for a layout that is a heading layout up to the spaces at its end: the printed log
+      reads back to the same days (the records the parser delivers carry the trimmed headings) *)
+  Theorem print_reads_back_core c L :
+    forallb safe_tok (rc_date c) = true -> heading_layout (layout_core (rc_date c)) = true ->
+    Forall (day_ok NM c) L ->
+    read_log NM (rc_date c) (print_output NM c L) = Some (map (reread_day NM) L).
+  Proof.
+    intros Hsafe HL HF. set (c' := with_date c (layout_core (rc_date c))).
+    assert (Ec : rc_date c' = layout_core (rc_date c)) by reflexivity.
+    assert (HL' : heading_layout (rc_date c') = true) by exact HL.
+    assert (HP' : Forall (day_printable NM c') L).
+    { eapply Forall_impl; [|exact HF]. intros d Hd. apply day_ok_printable, (day_ok_core NM c c' Ec), Hd. }
+    apply (read_log_core NM c c' Ec HL' Hsafe L HF).
+    - eapply Forall_impl; [|exact HP']. intros d Hd. apply (day_lines_scannable NM FS c' d HL' Hd).
+    - apply (events_print_output NM FS c' L HL' HP').
   Qed.
 
   (** *** printing what was read back *)
@@ -95,7 +258,7 @@ Section PrintMain.
     (forall n, In (ENode n) evs -> node_ok NM n) ->
     lognodes_of NM toks evs = Some L ->
     Forall (day_shape toks) L
-    /\ (L <> [] -> forallb safe_tok toks = true -> heading_layout toks = true).
+    /\ (L <> [] -> forallb safe_tok toks = true -> heading_layout (layout_core toks) = true).
   Proof.
     induction evs as [|ev evs IH]; intros L Hok H.
     - cbn in H. injection H as <-. split; [constructor|congruence].
@@ -118,11 +281,12 @@ Section PrintMain.
       + intros _ Hsafe. apply (readable_heading_layout toks (header n) cv Hsafe Hh Ed).
   Qed.
 
-  (** every day of every readable log has the normal shape *)
+  (** every day of every readable log has the normal shape, and the layout is a heading layout up to
+      the spaces at its end *)
   Theorem read_log_shape toks data L :
     read_log NM toks data = Some L ->
     Forall (day_shape toks) L
-    /\ (L <> [] -> forallb safe_tok toks = true -> heading_layout toks = true).
+    /\ (L <> [] -> forallb safe_tok toks = true -> heading_layout (layout_core toks) = true).
   Proof.
     unfold read_log. destruct (snd (scan data NoFault)); try discriminate.
     apply lognodes_of_shape. intros n Hn. apply (events_node_ok NM data n Hn).
@@ -140,8 +304,8 @@ Section PrintMain.
     intros Hsafe Hread Hnotes Hlen. split; [|apply print_output_reread].
     destruct (read_log_shape _ _ _ Hread) as [Hshape Hlay].
     destruct L as [|d0 L0]; [reflexivity|].
-    assert (HL : heading_layout (rc_date c) = true) by (apply Hlay; [discriminate|exact Hsafe]).
-    apply (print_reads_back c (d0 :: L0) HL).
+    assert (HL : heading_layout (layout_core (rc_date c)) = true) by (apply Hlay; [discriminate|exact Hsafe]).
+    apply (print_reads_back_core c (d0 :: L0) Hsafe HL).
     rewrite Forall_forall in *. intros d Hd. destruct (Hshape d Hd) as [S1 [S2 [S3 S4]]].
     unfold day_ok. auto 10 using (Hnotes d Hd), (Hlen d Hd).
   Qed.
